@@ -604,6 +604,15 @@ impl<Store: StorageData> DbImpl<Store> {
     }
 
     pub(crate) fn insert_alias(&mut self, db_id: DbId, alias: &String) -> Result<(), DbError> {
+        if let Some(owner) = self.aliases.value(&self.storage, alias)?
+            && owner != db_id
+        {
+            self.undo_stack.push(Command::InsertAlias {
+                id: owner,
+                alias: alias.clone(),
+            });
+        }
+
         if let Some(old_alias) = self.aliases.key(&self.storage, &db_id)? {
             self.undo_stack.push(Command::InsertAlias {
                 id: db_id,
@@ -666,12 +675,7 @@ impl<Store: StorageData> DbImpl<Store> {
     }
 
     pub(crate) fn insert_new_alias(&mut self, db_id: DbId, alias: &String) -> Result<(), DbError> {
-        self.undo_stack.push(Command::RemoveAlias {
-            alias: alias.clone(),
-        });
-        self.aliases.insert(&mut self.storage, alias, &db_id)?;
-
-        Ok(())
+        self.insert_alias(db_id, alias)
     }
 
     pub(crate) fn insert_node(&mut self) -> Result<DbId, DbError> {
